@@ -144,7 +144,8 @@ func c07Run(w *simrt.World, tier string) {
 				viol("C07:lookup:not-authenticated", "%s: lookup(%d) returns %s which is not authenticated\n%s", when, id, lc.GetConnID(), strings.Join(hist, "\n"))
 				return false
 			}
-			if lc.GetClientID() != id && !settled {
+			gotID := lc.GetClientID() // read once: a re-handshake may rewrite it between two reads
+			if gotID != id && !settled {
 				// concurrent observation: the lookup and this read are two steps, and a re-handshake on that
 				// connection may have landed in between (at the instant the lookup returned the answer was
 				// right). Only a stale index entry is a violation: it persists when the lookup is repeated.
@@ -161,8 +162,8 @@ func c07Run(w *simrt.World, tier string) {
 					continue
 				}
 			}
-			if lc.GetClientID() != id {
-				viol("C07:lookup:belongs-to-other-client:"+c07why(cc, id), "%s: lookup(%d) returns connection %s whose client id is %d\n%s", when, id, lc.GetConnID(), lc.GetClientID(), strings.Join(hist, "\n"))
+			if gotID != id {
+				viol("C07:lookup:belongs-to-other-client:"+c07why(cc, id), "%s: lookup(%d) returns connection %s whose client id is %d\n%s", when, id, lc.GetConnID(), gotID, strings.Join(hist, "\n"))
 				return false
 			}
 			if !settled {
